@@ -525,13 +525,17 @@ impl<'a> Sem<'a> {
             return;
         }
         let deep = depth >= 2;
+        // the wider operator catalogue (one application, operands generated recursively)
+        if !deep && self.rng.chance(1, 4) && self.catalog(ty, depth) {
+            return;
+        }
         match ty {
             Ty::Int => match self.rng.below(if deep { 2 } else { 13 }) {
                 0 | 1 => {
                     let v = self.rng.below(100).to_string();
                     self.w(&v)
                 }
-                9 if self.on("list-index") => {
+                9 if !self.visible_of_type(&Ty::List(Box::new(Ty::Int))).is_empty() && self.on("list-index") => {
                     let st = self.here();
                     self.value_atom_list_int(depth);
                     self.w("[0]");
@@ -842,13 +846,152 @@ impl<'a> Sem<'a> {
         self.p.bang_sites.push((self.cur, op.to_string(), close, args.len(), op_start));
     }
 
+    /// One application of a typed bang operator with result type `ty`, chosen from a catalogue
+    /// written from the TableGen Programmer's Reference (operand and result types per operator).
+    /// Returns false (writing nothing) if the catalogue has nothing for `ty` or the operator is disabled.
+    fn catalog(&mut self, ty: &Ty, depth: usize) -> bool {
+        let li = || Ty::List(Box::new(Ty::Int));
+        let ls = || Ty::List(Box::new(Ty::Str));
+        let entries: Vec<(&'static str, Vec<Ty>)> = match ty {
+            Ty::Int => vec![
+                ("!and", vec![Ty::Int, Ty::Int]),
+                ("!or", vec![Ty::Int, Ty::Int, Ty::Int]),
+                ("!xor", vec![Ty::Int, Ty::Int]),
+                ("!div", vec![Ty::Int, Ty::Int]),
+                ("!sra", vec![Ty::Int, Ty::Int]),
+                ("!srl", vec![Ty::Int, Ty::Int]),
+                ("!logtwo", vec![Ty::Int]),
+                ("!find", vec![Ty::Str, Ty::Str]),
+                ("!find", vec![Ty::Str, Ty::Str, Ty::Int]),
+                ("!size", vec![Ty::Str]),
+                ("!size", vec![Ty::Dag]),
+                ("!size", vec![ls()]),
+            ],
+            Ty::Bit => vec![
+                ("!ge", vec![Ty::Int, Ty::Int]),
+                ("!gt", vec![Ty::Str, Ty::Str]),
+                ("!le", vec![Ty::Int, Ty::Int]),
+                ("!eq", vec![Ty::Str, Ty::Str]),
+                ("!eq", vec![Ty::Bit, Ty::Bit]),
+                ("!ne", vec![Ty::Int, Ty::Int]),
+                ("!empty", vec![Ty::Str]),
+                ("!empty", vec![Ty::Dag]),
+                ("!initialized", vec![Ty::Int]),
+                ("!initialized", vec![Ty::Str]),
+                ("!exists<K>", vec![Ty::Str]),
+            ],
+            Ty::Str => vec![
+                ("!toupper", vec![Ty::Str]),
+                ("!subst", vec![Ty::Str, Ty::Str, Ty::Str]),
+                ("!strconcat", vec![Ty::Str, Ty::Str, Ty::Str]),
+                ("!repr", vec![Ty::Int]),
+                ("!repr", vec![li()]),
+                ("!interleave", vec![li(), Ty::Str]),
+                ("!substr", vec![Ty::Str, Ty::Int, Ty::Int]),
+            ],
+            Ty::List(el) if **el == Ty::Int => vec![
+                ("!listsplat", vec![Ty::Int, Ty::Int]),
+                ("!listremove", vec![li(), li()]),
+                ("!listflatten", vec![Ty::List(Box::new(li()))]),
+                ("!range", vec![Ty::Int, Ty::Int]),
+                ("!range", vec![Ty::Int, Ty::Int, Ty::Int]),
+                ("!range", vec![ls()]),
+                ("!listconcat", vec![li(), li(), li()]),
+            ],
+            Ty::List(el) if **el == Ty::Str => vec![("!listsplat", vec![Ty::Str, Ty::Int]), ("!listremove", vec![ls(), ls()]), ("!tail", vec![ls()])],
+            Ty::Dag if !self.defs.is_empty() => vec![
+                ("!setdagname", vec![Ty::Dag, Ty::Int, Ty::Str]),
+                ("!setdagarg", vec![Ty::Dag, Ty::Int, Ty::Int]),
+                ("!dag", vec![]),
+                ("!setdagop", vec![]),
+            ],
+            _ => return false,
+        };
+        let (op, args) = entries[self.rng.below(entries.len())].clone();
+        if args.contains(&Ty::Dag) && !self.defs.iter().any(|d| !self.name_is_local(&d.name)) {
+            return false; // a dag operand needs a def as its operator
+        }
+        let feature = op.split('<').next().unwrap_or(op);
+        if !self.on(feature) {
+            return false;
+        }
+        let st = self.here();
+        self.p.feat.bang_ops += 1;
+        match op {
+            "!exists<K>" => {
+                if self.classes.is_empty() {
+                    return false;
+                }
+                let c = self.classes[self.rng.below(self.classes.len())].clone();
+                self.w("!exists<");
+                self.ident(&c.name, Role::Use(c.decl));
+                self.w(">(");
+                self.value(&Ty::Str, depth + 1);
+                self.w(")");
+            }
+            "!dag" | "!setdagop" => {
+                let cands: Vec<(String, usize)> = self.defs.iter().filter(|d| !self.name_is_local(&d.name)).map(|d| (d.name.clone(), d.decl)).collect();
+                if cands.is_empty() {
+                    return false;
+                }
+                let (n, d) = cands[self.rng.below(cands.len())].clone();
+                if op == "!dag" {
+                    self.w("!dag(");
+                    self.ident(&n, Role::Use(d));
+                    self.w(", [");
+                    self.value(&Ty::Int, depth + 1);
+                    self.w(", ");
+                    self.value(&Ty::Int, depth + 1);
+                    self.w("], [\"a\", \"b\"])");
+                } else {
+                    self.w("!setdagop(");
+                    self.value(&Ty::Dag, depth + 1);
+                    self.w(", ");
+                    self.ident(&n, Role::Use(d));
+                    self.w(")");
+                }
+            }
+            _ => {
+                // written here rather than through bang(): the arity-fault seeder only knows the operators of bang()
+                self.w(op);
+                self.w("(");
+                for (i, t) in args.iter().enumerate() {
+                    if i > 0 {
+                        self.w(", ");
+                    }
+                    // keep indices and counts small: the values are evaluated by real TableGen in the audit
+                    if matches!((op, i), ("!substr", 1 | 2) | ("!find", 2) | ("!listsplat", 1) | ("!setdagname", 1) | ("!setdagarg", 1) | ("!sra" | "!srl", 1)) {
+                        let k = self.rng.below(2).to_string();
+                        self.w(&k);
+                    } else {
+                        self.value(t, depth + 1);
+                    }
+                }
+                self.w(")");
+            }
+        }
+        self.span(match feature {
+            "!and" => "op-and", "!or" => "op-or", "!xor" => "op-xor", "!div" => "op-div", "!sra" => "op-sra", "!srl" => "op-srl",
+            "!logtwo" => "op-logtwo", "!find" => "op-find", "!size" => "op-size", "!ge" => "op-ge", "!gt" => "op-gt", "!le" => "op-le",
+            "!eq" => "op-eq", "!ne" => "op-ne", "!empty" => "op-empty", "!initialized" => "op-initialized", "!exists" => "op-exists",
+            "!toupper" => "op-toupper", "!subst" => "op-subst", "!strconcat" => "op-strconcat", "!repr" => "op-repr",
+            "!interleave" => "op-interleave", "!substr" => "op-substr", "!listsplat" => "op-listsplat", "!listremove" => "op-listremove",
+            "!listflatten" => "op-listflatten", "!range" => "op-range", "!listconcat" => "op-listconcat", "!tail" => "op-tail",
+            "!setdagname" => "op-setdagname", "!setdagarg" => "op-setdagarg", "!dag" => "op-dag", "!setdagop" => "op-setdagop",
+            _ => "op-other",
+        }, st);
+        true
+    }
+
     /// `n{k}` for a visible int name: valid TableGen (a bit of an int) whose type the indexer does
     /// not compute; returns false (writing nothing) when no int name is visible
     fn int_bit_select(&mut self) -> bool {
         if !self.on("int-bit-select") {
             return false;
         }
-        let vis = self.visible_of_type(&Ty::Int);
+        // only defvar-declared ints: TableGen rejects a bit range on a value that is not known yet
+        // (template argument, field, operator variable)
+        let vis: Vec<(String, usize)> = self.visible_of_type(&Ty::Int).into_iter().filter(|(_, d)| self.p.decls[*d].kind == DeclKind::Defvar).collect();
         if vis.is_empty() {
             return false;
         }
@@ -865,14 +1008,11 @@ impl<'a> Sem<'a> {
     /// a list<int> value that can take a `[0]` suffix: a visible variable or a literal list
     fn value_atom_list_int(&mut self, depth: usize) {
         let vis = self.visible_of_type(&Ty::List(Box::new(Ty::Int)));
-        if !vis.is_empty() && self.rng.chance(2, 3) {
-            let (n, d) = vis[self.rng.below(vis.len())].clone();
-            self.ident(&n, Role::Use(d));
-        } else {
-            self.w("[");
-            self.value(&Ty::Int, depth + 1);
-            self.w(", 7]");
-        }
+        // (a list literal cannot be indexed directly where TableGen expects an int: it parses the
+        // literal against the expected type first)
+        let _ = depth;
+        let (n, d) = vis[self.rng.below(vis.len())].clone();
+        self.ident(&n, Role::Use(d));
     }
 
     /// `!foldl(<int>, <list<int>>, acc, x, !add(acc, x))`
